@@ -1451,3 +1451,80 @@ M("M94", "add_line strips the prefix repeatedly (trim_start_matches): escaped li
                         .trim_end_matches(char::is_whitespace)""", """                    line.trim_start_matches(self.prefix.as_str())
                         .trim_end_matches(char::is_whitespace)""")],
   {"C15": ["R15.5"]})
+
+# ------------------------------------------------------------------ delegated rules: the same mutants must also fire them
+def _also(mid, extra):
+    for m in MUTANTS:
+        if m["id"] == mid:
+            for p, rs in extra.items():
+                m["expect"].setdefault(p, [])
+                for r in rs:
+                    if r not in m["expect"][p]:
+                        m["expect"][p].append(r)
+
+
+_also("M34", {"C01": ["R01.7"], "C16": ["R16.2"]})
+_also("M93", {"C01": ["R01.8"]})
+_also("M44", {"C16": ["R16.5"]})
+_also("M94", {"C16": ["R16.6"]})
+_also("M81", {"C16": ["R16.6"]})
+_also("M12", {"C17": ["R17.3"]})
+_also("M47b", {"C14": ["R14.5"]})
+_also("M47c", {"C14": ["R14.5"]})
+_also("M07", {"C11": ["R11.4"]})
+_also("M08", {"C11": ["R11.4"]})
+_also("M04", {"C05": ["R05.2"]})
+_also("M09b", {"C05": ["R05.3"]})
+_also("M09c", {"C05": ["R05.3"]})
+_also("M05", {"C08": ["R08.3"]})
+_also("M06b", {"C08": ["R08.3"]})
+_also("M10", {"C04": ["R04.2"]})
+_also("M11", {"C04": ["R04.2"]})
+_also("M15", {"C04": ["R04.2"]})
+_also("M37b", {"C12": ["R12.5"]})
+_also("M83", {"C16": ["R16.4"]})
+
+M("M95", "a self-dependency found while collecting is reported at once as a worker error (seeded by an independent agent: C05)",
+  [(PP, """                match &mut self.pp_mode {
+                    PpMode::CollectDeps(deps) => {""", """                if p_abs == self.input_file {
+                    return Err(
+                        Report::new(self.context.make_error(PpErrorKind::Directive))
+                            .attach_printable(format!("`{arg}` is the output of this file. A file cannot depend on its own output.")),
+                    );
+                }
+                match &mut self.pp_mode {
+                    PpMode::CollectDeps(deps) => {""")],
+  {"C05": ["R05.4"]})
+M("M96", "existing temp file read with take(contents.len()) before the comparison (prefix compare; seeded by an independent agent: C08)",
+  [(IO, """            let current_content = fs::read(&export_file)
+                .change_context_lazy(|| make_error!(self, PpErrorKind::ReadFile))""", """            let mut current_content = Vec::new();
+            File::open(&export_file)
+                .and_then(|f| f.take(contents.len() as u64).read_to_end(&mut current_content))
+                .change_context_lazy(|| make_error!(self, PpErrorKind::ReadFile))""")],
+  {"C08": ["R08.2"]})
+M("M97", "clean also resolves include dependencies (dependency collection in Clean mode)",
+  [(PP, """        if let Mode::Clean = self.mode {
+            // Ignore error if in clean mode
+            let _ = self.execute_in_clean_mode(d);
+            return Ok(None);
+        }""", """        if let Mode::Clean = self.mode {
+            if let DirectiveType::Include = d.directive_type {
+                let _ = self.execute_in_collect_deps_mode(d);
+                return Ok(None);
+            }
+            // Ignore error if in clean mode
+            let _ = self.execute_in_clean_mode(d);
+            return Ok(None);
+        }""")],
+  {"C11": ["R11.5"], "C07": ["R07.1"]})
+M("M98", "only Preprocess results are counted as done (directory scans never complete: hang)",
+  [(EX, """            let _ = self.progress.add_done(1);
+
+            match data {
+                TaskResult::ScanDir(result) => {""", """            match data {
+                TaskResult::ScanDir(result) => {"""),
+   (EX, """                TaskResult::Preprocess(result) => {
+                    let preprocess_result = result.map_err(|e| {""", """                TaskResult::Preprocess(result) => {
+                    let _ = self.progress.add_done(1);
+                    let preprocess_result = result.map_err(|e| {""")],
+  {"C03": ["R03.3"]})
